@@ -4,7 +4,8 @@ open AGV AGV.Model.SchedWire
 
 namespace AGV.Drive.C04
 
-def idOnce : String := "C04-repeated-key-resolved-per-occurrence"
+def idOnceStatic : String := "C04-repeated-key-resolved-per-occurrence"
+def idOnceDyn : String := "C04-dyn-repeated-key-resolved-per-occurrence"
 
 /-- C04 on one case (document, world, several schedules), evaluated on the implementation's traces:
     (a) under every schedule no resolver is started twice for the same parent position and
@@ -18,6 +19,8 @@ def judge (known : List String) (case impl : String) : JudgeOut :=
   match case? case with
   | none => .viol "bad-case" "undecodable case"
   | some c =>
+    -- the same defect, listed (and repairable) separately for the two executors
+    let idOnce := if c.dyn then idOnceDyn else idOnceStatic
     let tK : Toggles := { Toggles.pinned with perOccurrence := known.contains idOnce }
     match implRuns? impl with
     | none => .viol (modelStr c tK) "unreadable implementation output"
